@@ -131,6 +131,26 @@ def prune_cache(keep_seconds=6 * 3600, max_bytes=1500 * 1024 * 1024):
                 pass
 
 
+def strip_targs(name):
+    """'ns::C<a, b<c>>::f' -> 'ns::C::f' (keeps operator<, operator<<, operator-> etc.)"""
+    i = name.rfind("::operator")
+    tail = ""
+    if i >= 0 and not name[i + 10:i + 11].isalnum() and name[i + 10:i + 11] != "_":
+        name, tail = name[:i], name[i:]
+    elif name.startswith("operator") and not name[8:9].isalnum():
+        return name
+    out = []
+    depth = 0
+    for ch in name:
+        if ch == "<":
+            depth += 1
+        elif ch == ">":
+            depth -= 1
+        elif depth == 0:
+            out.append(ch)
+    return "".join(out) + tail
+
+
 class FactDB:
     """One translation unit's facts with indices."""
 
@@ -144,6 +164,12 @@ class FactDB:
         self.records = d["records"]
         self.statics = d["statics"]
         self._resolve_types(d)
+        for f in self.functions:
+            f["n_full"] = f["n"]
+            f["n"] = strip_targs(f["n"])
+        for r in self.records:
+            r["n_full"] = r["n"]
+            r["n"] = strip_targs(r["n"])
         self.fn_by_id = {f["id"]: f for f in self.functions}
         self.fn_by_name = {}
         for f in self.functions:
